@@ -571,7 +571,8 @@ def _r9(chk, repo):
     p = ci.props.get("_normal")
     if p is None or p.getter is None:
         raise AnchorError("Lognormal._normal getter not found")
-    fn = p.getter
+    from .common import canon_fn
+    fn = canon_fn(repo, ci, p.getter, 3)          # local names for the mirror / the parameters / the comparison results substituted away
     g = CFG(fn)
     rets = g.returns()
     if len(rets) != 1 or path_of(rets[0].ast.value) is None:
